@@ -158,6 +158,18 @@ CHECKS = {
             "Python's os/stat/hashlib/pwd/grp and getcap are trusted; heuristic columns (mime, is_text) and "
             "created/accessed/device are not asserted.",
             "DESIGN.md 4 C04"),
+    "C17": ("fault_enumeration",
+            "fault injection over generated trees (Hypothesis): every single-directory permission fault position, file "
+            "read faults, dangling links, run as uid 65534, differential against the fault-free control run; enumerated "
+            "close offsets of a 4 KiB stdout pipe for 6 formats x 4 result paths",
+            "For each generated tree every directory is made unlistable in turn (thorough: subsets of <= 3): rows "
+            "outside the fault must equal the control run's, the failing path must be named on stderr and the status "
+            "be 1, while the control run is clean (0, empty stderr). Unreadable files keep their row and metadata, "
+            "lose only content cells, and leave other rows and aggregates intact. For the output side the reader "
+            "closes after exactly K bytes (or before exec): the child must end by itself with status 0/1, no panic.",
+            "Faults are permission faults (chmod 000) seen by an unprivileged process; exit status for file-only "
+            "faults may be 0 or 1; message wording is free.",
+            "DESIGN.md 4 C17"),
 }
 
 PENDING = {}
